@@ -80,3 +80,31 @@ Lemma witnesses_refute :
                    w_named_object_operator_arg; w_path_inside_named_object_arg; w_deferred_block_truncated;
                    w_empty_buffer_in_deferred_block] = true.
 Proof. vm_compute. reflexivity. Qed.
+
+Definition witnesses : list (list (list ast)) :=
+  [w_path_through_device; w_caret_in_device; w_noncanonical_multiname; w_if_without_body;
+   w_named_object_operator_arg; w_path_inside_named_object_arg; w_deferred_block_truncated;
+   w_empty_buffer_in_deferred_block].
+
+Lemma witnesses_all : Forall (fun p => wf_program p = true /\ ~ parse_encode_statement p) witnesses.
+Proof.
+  apply Forall_forall. intros p Hp. apply refutes_sound.
+  pose proof witnesses_refute as H. rewrite forallb_forall in H. apply H. exact Hp.
+Qed.
+
+(** a program on which the statement holds (non-vacuity of its conclusion): scopes, a device, a method with a call
+    to a method declared later, a region with fields, a package, a buffer *)
+Definition MTH1 := sg 0x4d 0x54 0x48 0x31.
+Definition FLD0 := sg 0x46 0x4c 0x44 0x30.
+Definition good_program : list (list ast) :=
+  [[AScope 1 (nm1 _SB_)
+      [ADevice 1 (nm1 DEV0)
+         [AName (nm1 NAM0) (APackage 1 2 [byte 7; AStr [0x61; 0x62]]);
+          AMethod 1 (nm1 MTH0) 1 [AOp aml_pOpReturn [ACall (nm1 MTH1) [AOp aml_pOpAdd [AOp aml_pOpArg0 []; byte 1; ANull]; One]]];
+          AOpRegion (nm1 REG0) 1 (byte 0x10) (byte 4);
+          AField 1 (nm1 REG0) 1 [FNamed FLD0 1 8; FReserved 1 8; FAccess 2 0]]];
+    AMethod 1 (mkName true 0 false [_SB_; MTH1]) 2 [AOp aml_pOpReturn [AOp aml_pOpArg1 []]];
+    AName (nm1 BUF0) (ABuffer 1 (byte 4) [1; 2; 3])]].
+
+Lemma good_program_ok : wf_program good_program = true /\ parse_encode_statement good_program.
+Proof. split; vm_compute; reflexivity. Qed.
